@@ -1,5 +1,110 @@
 import QipVerif.Util.Proto
-/-! Driver stub (to be filled in by the owner of this model). -/
-open QipVerif.Proto
-def step (_line : String) : String := "bad-op"
+import QipVerif.Model.QasmExport
+/-! Driver for the QASM models (C10 exporter, C04 importer, the strict recogniser).
+
+Text that may contain spaces is hex-encoded (two lower-case hex digits per byte, ASCII only).
+
+* `export n=N c=M ops=<op>;<op>;…` → `ok <hex line>,<hex line>,…` | `err <kind>`
+    op = `g:NAME:<idx>:<idx>:<arg>:<idx>` (targets, controls, arg_value, classical controls)
+       | `m:<idx>:<store>`
+    idx = `N` (None) | `L` + dot-separated naturals (`L` = empty list);  store = `N` | natural
+    arg = `N` | `S<hex str(x)>` | `Q<kind>/<hex str(container)>/<hex str(x0)>,<hex str(x1)>,…`
+* `accept lines=<hex>,<hex>,…` → `true` | `false`      (strict recogniser on a whole text)
+* `parse line=<hex>` → `reject` | `blank` | `stmt`
+-/
+open QipVerif QipVerif.Proto QipVerif.Qasm
+
+def hexVal (c : Char) : Option Nat :=
+  if '0' ≤ c && c ≤ '9' then some (c.toNat - '0'.toNat)
+  else if 'a' ≤ c && c ≤ 'f' then some (c.toNat - 'a'.toNat + 10)
+  else none
+
+def unhexL : List Char → Option (List Char)
+  | [] => some []
+  | a :: b :: r =>
+    match hexVal a, hexVal b, unhexL r with
+    | some x, some y, some t => some (Char.ofNat (16 * x + y) :: t)
+    | _, _, _ => none
+  | _ => none
+
+def unhex (s : String) : Option Str := unhexL s.toList
+
+def hexDigit (n : Nat) : Char :=
+  if n < 10 then Char.ofNat ('0'.toNat + n) else Char.ofNat ('a'.toNat + n - 10)
+
+def hex (s : Str) : String :=
+  String.ofList (s.flatMap fun c => [hexDigit (c.toNat / 16), hexDigit (c.toNat % 16)])
+
+def parseIdx (s : String) : Option (Option (List Nat)) :=
+  if s == "N" then some none
+  else if s.startsWith "L" then
+    let body := (s.drop 1).toString
+    if body.isEmpty then some (some [])
+    else ((body.splitOn ".").mapM String.toNat?).map some
+  else none
+
+def parseNum (h : String) : Option Export.Num :=
+  match unhex h with
+  | some ('-' :: t) => some ⟨true, t⟩
+  | some t => some ⟨false, t⟩
+  | none => none
+
+def parseArg (s : String) : Option Export.ArgVal :=
+  if s == "N" then some .none
+  else if s.startsWith "S" then (parseNum (s.drop 1).toString).map .num
+  else if s.startsWith "Q" then
+    match (s.drop 1).toString.splitOn "/" with
+    | [kind, whole, items] =>
+      match unhex whole, (if items.isEmpty then some [] else (items.splitOn ",").mapM parseNum) with
+      | some w, some xs => some (.seq kind.toList w xs)
+      | _, _ => none
+    | _ => none
+  else none
+
+def parseOp (s : String) : Option Export.Op :=
+  match s.splitOn ":" with
+  | ["g", name, t, c, a, k] =>
+    match parseIdx t, parseIdx c, parseArg a, parseIdx k with
+    | some t, some c, some a, some k => some (.gate ⟨name.toList, t, c, a, k⟩)
+    | _, _, _, _ => none
+  | ["m", t, st] =>
+    match parseIdx t with
+    | some (some ts) =>
+      if st == "N" then some (.meas ts none) else (st.toNat?).map (fun n => .meas ts (some n))
+    | _ => none
+  | _ => none
+
+def exportErr : Export.Err → String
+  | .notImpl => "notImpl" | .attr => "attr" | .type => "type" | .index => "index" | .value => "value"
+
+def step (line : String) : String :=
+  let fs := fields line
+  match fs.head? with
+  | some "export" =>
+    match fNat? fs "n", fNat? fs "c", fStr? fs "ops" with
+    | some n, some c, some ops =>
+      match (if ops.isEmpty then some [] else (ops.splitOn ";").mapM parseOp) with
+      | some l =>
+        match Export.exportCircuit ⟨n, c, l⟩ with
+        | .ok ls => "ok " ++ ",".intercalate (ls.map hex)
+        | .error e => "err " ++ exportErr e
+      | none => "bad-op"
+    | _, _, _ => "bad-op"
+  | some "accept" =>
+    match fStr? fs "lines" with
+    | some ls =>
+      match (ls.splitOn ",").mapM unhex with
+      | some l => if acceptProgram l then "true" else "false"
+      | none => "bad-op"
+    | none => "bad-op"
+  | some "parse" =>
+    match (fStr? fs "line").bind unhex with
+    | some l =>
+      match parseLine l with
+      | none => "reject"
+      | some none => "blank"
+      | some (some _) => "stmt"
+    | none => "bad-op"
+  | _ => "bad-op"
+
 def main : IO Unit := serve step
